@@ -58,6 +58,10 @@ def pre_lead_rest(f, s):
     seq = consumption(s.body)
     total = sum(w for (w, _d, _c) in seq if isinstance(w, int))
     want = lead_size - 16
+    # the unwrapped value is the conversion of a slice into the 16 reserved bytes (whichever unwrap of the function this is)
+    conv = [lf["call"] for lf in s.body.origins(s.call.args[0], passthrough={}) if lf["kind"] == "call" and lf["call"].decl == "std::convert::TryInto::try_into"] if s.call is not None and s.call.args else []
+    if not (len(conv) == 1 and (conv[0].gargs or [None, None])[1] == "[u8; 16]"):
+        return False, "the unwrapped value is not a conversion into [u8; 16]"
     return total == want, "callers pass [u8; %d]; Lead::parse consumes %d bytes before the 16 reserved ones" % (lead_size, total)
 
 
@@ -140,7 +144,7 @@ ALLOW = {
         ("usize -> u32 conversion of the length of an in-memory Vec of issuer ids: fails only beyond 2^32 elements", pre_len_to_u32),
     "package::Package::signature_key_ids|unwrap|std::result::Result::<T, E>::unwrap|#1":
         ("usize -> u32 conversion of the length of an in-memory Vec of issuer ids: fails only beyond 2^32 elements", pre_len_to_u32),
-    "headers::lead::Lead::parse|unwrap|std::result::Result::<T, E>::unwrap|#0":
+    "headers::lead::Lead::parse|unwrap|std::result::Result::<T, E>::unwrap|#*":
         ("the remainder after the fixed 80-byte prefix of a 96-byte lead is exactly the 16 reserved bytes", pre_lead_rest),
     "payload::Reader::<R>::finish|assert|Overflow(Sub)|#0":
         ("bytes_read never exceeds file_size", pre_reader_invariant),
